@@ -20,14 +20,14 @@ CLAIMED["C16"] = {
     "engine": "E-CFG/E-TERM",
     "technique": "static typestate analysis of the Option latch over the MIR control-flow graph; compile-fail witness (thorough)",
     "design_ref": "DESIGN.md section 4 / C16",
-    "text": "Decides statically: at every error return of Stream::write the Option latch holding the run state is empty (dataflow with take/refill/None transfer functions), the refill is followed by success only, the None arms of write/finish touch nothing / return Err, the shared decoding loop tests produced-length against the size with an ordering comparison before any consuming call, and the streaming decoder's size in effect is params.unpacked_size of LzmaParams::read_header unconditionally. 'No sequence of calls panics' is covered by C07.R1 over the same bodies.",
+    "text": "Decides statically: at every error return of Stream::write the Option latch holding the run state is empty (dataflow with take/refill/None transfer functions), the refill is followed by success only, the None arms of write/finish touch nothing / return Err, the shared decoding loop tests produced-length against the size with an ordering comparison before any consuming call, the streaming decoder's size in effect is params.unpacked_size of LzmaParams::read_header unconditionally, and read_data / process_stream / process touch the input only through the decoding core (whose first action is the size test). 'No sequence of calls panics' is covered by C07.R1 over the same bodies.",
     "note": "Trusts rustc's MIR; Option::take/replace semantics from std.",
 }
 CLAIMED["C06"] = {
     "engine": "E-CFG/E-TERM",
     "technique": "static analysis: 18-row obligation table matched by operand provenance, Err-only mismatch edges, must-pass-through to Ok, lossy-operation scan (MIR facts)",
     "design_ref": "DESIGN.md section 4 / C06",
-    "text": "Decides the first sentence of the property statically: every integrity field of the XZ format (magics, 4 CRC32s, stream flags, declared sizes, paddings, block check CRC32/CRC64, index count/sizes, backward size, trailing data) is compared with the right counterpart (identified by data-flow provenance), a mismatch reaches only Err, no successful return is reachable from the field's read without the comparison, the finalized digest is the one the reads were routed through, no comparison operand passes a narrowing cast or wrapping arithmetic, and read_tag returns the comparison of the whole tag with tag.len() bytes read exactly (never a constant true). Declined: the 'consequently' clause (it rests on CRC32/CRC64 detecting every corruption).",
+    "text": "Decides the first sentence of the property statically: every integrity field of the XZ format (magics, 4 CRC32s, stream flags, declared sizes, paddings, block check CRC32/CRC64, index count/sizes, backward size, trailing data) is compared with the right counterpart (identified by data-flow provenance), a mismatch reaches only Err, no successful return is reachable from the field's read without the comparison, the finalized digest is the one the reads were routed through, no comparison operand passes a narrowing cast or wrapping arithmetic, read_tag returns the comparison of the whole tag with tag.len() bytes read exactly (never a constant true), and a delegated padding check tests every byte for zero (no XOR/sum accumulation). Declined: the 'consequently' clause (it rests on CRC32/CRC64 detecting every corruption).",
     "note": "Trusts rustc's MIR and the documented Read/BufRead contracts.",
 }
 
@@ -36,21 +36,21 @@ CLAIMED["C07"] = {
     "engine": "E-AI + E-CFG/E-TERM",
     "technique": "static analysis: abstract interpretation over MIR (linear forms + facts, tabulated inlining, most-general-client harness per public type) refuting every panic-capable site; loop classification; allocation-size bounds",
     "design_ref": "DESIGN.md section 4 / C07",
-    "text": "Decides statically: (R1) each of the ~145 panic-capable MIR sites (overflow/bounds/division asserts with overflow checks on, panicking std calls, explicit panics) reachable from any public decoding entry point - one-shot functions, the streaming decoder under any call sequence, the raw decoders with any accepted parameters - is refuted by abstract interpretation or matches an argued entry of rules/justified.json whose side-conditions are re-checked (who-writes, validated stores, callers, and 'only from these entry points'); every construction of the circular window carries the obligation dict_size >= 1; unmodelled external callees fail closed; (R2) every loop is iterator-driven, exactly unrolled, or cannot go round without a consuming/producing call; (R3) every sized allocation is bounded by 2^23 or is unit growth by data. Declined: that finite input cannot drive unbounded output (range-coder numerics); heap numbers.",
+    "text": "Decides statically: (R1) each of the ~145 panic-capable MIR sites (overflow/bounds/division asserts with overflow checks on, panicking std calls, explicit panics) reachable from any public decoding entry point - one-shot functions, the streaming decoder under any call sequence, the raw decoders with any accepted parameters - is refuted by abstract interpretation or matches an argued entry of rules/justified.json whose side-conditions are re-checked (who-writes, validated stores, callers, and 'only from these entry points'); every construction of the circular window carries the obligation dict_size >= 1; BufRead::consume(n) counts as loop progress only with n >= 1; unmodelled external callees fail closed; (R2) every loop is iterator-driven, exactly unrolled, or cannot go round without a consuming/producing call; (R3) every sized allocation is bounded by 2^23 or is unit growth by data. Declined: that finite input cannot drive unbounded output (range-coder numerics); heap numbers.",
     "note": AI_NOTE,
 }
 CLAIMED["C08"] = {
     "engine": "E-CFG/E-TERM",
     "technique": "static analysis: per-arm read widths, provenance of the stored size, dominance/path checks of size test, final equality and end-marker acceptance (MIR facts)",
     "design_ref": "DESIGN.md section 4 / C08",
-    "text": "Decides statically: LzmaParams.unpacked_size and DecoderState.unpacked_size are written (or lent mutably) only by read_header / the constructors / set_unpacked_size; read_header consumes 13/13/5 bytes per option (resolved read widths, through local helpers); the size in effect depends only on the header field resp. only on the caller's value per option arm; the size test opens every round of the decoding loop (ordering comparison); with a size in effect every Finish-mode success (from the Some edge of every test of the size, including the end-marker exit of the loop) passes a test whose truth table is produced == size and whose mismatch edge is Err; the end marker is accepted only behind distance == 0xFFFF_FFFF and a true is_finished_ok (code == 0 and end of input); match lengths handed to the window never depend on the size in effect. Declined: that the produced count equals the declared one for a given stream (value-level).",
+    "text": "Decides statically: LzmaParams.unpacked_size and DecoderState.unpacked_size are written (or lent mutably) only by read_header / the constructors / set_unpacked_size; read_header consumes 13/13/5 bytes per option (resolved read widths, through local helpers); the size in effect depends only on the header field resp. only on the caller's value per option arm; the size test opens every round of the decoding loop (ordering comparison); with a size in effect every Finish-mode success (from the Some edge of every test of the size, including the end-marker exit of the loop) passes a test whose truth table is produced == size and whose mismatch edge is Err; the streaming API's final pass is skipped by allow_incomplete only and its header staging loses nothing whatever the option's header length; the end marker is accepted only behind distance == 0xFFFF_FFFF and a true is_finished_ok (code == 0 and end of input); match lengths handed to the window never depend on the size in effect. Declined: that the produced count equals the declared one for a given stream (value-level).",
     "note": "Trusts rustc's MIR.",
 }
 CLAIMED["C11"] = {
     "engine": "E-AI + E-CFG/E-TERM",
     "technique": "static analysis: E-AI reachability from one-shot entries + classification of consuming calls by resolved callee and reader type; dominance of the 5-byte preamble; path checks after size / end byte",
     "design_ref": "DESIGN.md section 4 / C11",
-    "text": "Decides statically: on every path reachable from the one-shot decoders (abstract interpretation proves the streaming carry-over code dead there) input is consumed only by exact-width reads, peeks, adapters' own reads or on Take-limited readers; the size test stops the loop before any further consumption and nothing touches the input afterwards; RangeDecoder::new reads exactly 1+4 bytes and dominates every success of its creators; normalisation reads one byte only under range < 2^24; nothing is read after the LZMA2 end byte; XZ rejects trailing bytes. Declined: lock-step with a conforming encoder (numerics).",
+    "text": "Decides statically: on every path reachable from the one-shot decoders (abstract interpretation proves the streaming carry-over code dead there) input is consumed only by exact-width reads, peeks, adapters' own reads or on Take-limited readers; the size test stops the loop before any further consumption and nothing touches the input afterwards; RangeDecoder::new reads exactly 1+4 bytes and dominates every success of its creators; normalisation reads one byte only under range < 2^24; nothing is read after the LZMA2 end byte; XZ rejects trailing bytes; the one-shot LZMA/LZMA2 entry points hand their reader to the header parser and the decoder only. Declined: lock-step with a conforming encoder (numerics).",
     "note": AI_NOTE,
 }
 CLAIMED["C13"] = {
@@ -64,7 +64,7 @@ CLAIMED["C14"] = {
     "engine": "E-CFG/E-TERM",
     "technique": "static sibling agreement: per-field provenance terms of reset_state vs constructor (field list from the ADT), dominance of reset_state in the reset entry points",
     "design_ref": "DESIGN.md section 4 / C14",
-    "text": "Decides statically: for every field of the decoder state (taken from the ADT definition, so a new field becomes an obligation) reset_state stores on every path the same value the constructor builds (an in-place reset method is compared recursively with the field type's constructor, element loops must cover the whole array), with two documented exceptions; the size in effect is written only by the constructors and set_unpacked_size; the literal table is refilled or re-created on both branches; LzmaDecoder::reset / Lzma2Decoder::reset call reset_state unconditionally with the constructor's properties; sizes cannot leak across LZMA2 resets; window and range decoder are per-call locals.",
+    "text": "Decides statically: for every field of the decoder state (taken from the ADT definition, so a new field becomes an obligation) reset_state stores on every path the same value the constructor builds (an in-place reset method is compared recursively with the field type's constructor, element loops must cover the whole array), with two documented exceptions; the size in effect is written only by the constructors and set_unpacked_size; every other field of LzmaDecoder / Lzma2Decoder is configuration (never written after construction) or restored by reset; the literal table is refilled or re-created on both branches; LzmaDecoder::reset / Lzma2Decoder::reset call reset_state unconditionally with the constructor's properties; sizes cannot leak across LZMA2 resets; window and range decoder are per-call locals.",
     "note": "Trusts rustc's MIR.",
 }
 
@@ -72,14 +72,14 @@ CLAIMED["C09"] = {
     "engine": "E-CFG/E-TERM",
     "technique": "static analysis: distance guards located by operand provenance in every implementor of the window trait, Err-only failing edges, dominance over every buffer access; field privacy",
     "design_ref": "DESIGN.md section 4 / C09",
-    "text": "Decides statically for both window implementations (enumerated from the impl list): last_n and append_lz test dist > bytes produced (and dist > dict_size for the circular window), the failing edges reach only Err, and the tests dominate every access to the buffer and every append in the function; the buffer field is private to the window module and the symbol decoder uses only the guarded trait methods; the circular copy reads at the wrapped running offset; the dictionary bound is max(header field, 4096) (C01.R1 evaluation); the LZMA2 window is emptied (buf cleared, len zeroed) at exactly the dictionary resets the format prescribes (C02.R1). Declined: that guarded cells hold the right bytes (value-level).",
+    "text": "Decides statically for both window implementations (enumerated from the impl list): last_n and append_lz test dist > bytes produced (and dist > dict_size for the circular window), the failing edges reach only Err, and the tests dominate every access to the buffer and every append in the function; the guards are decided by truth table (reject exactly dist > bound) and may live in a ?-applied helper; the buffer field is private to the window module, the symbol decoder uses only the guarded trait methods and propagates last_n's verdict with ?; the circular copy reads at the wrapped running offset; the dictionary bound is max(header field, 4096) (C01.R1 evaluation); the LZMA2 window is emptied (buf cleared, len zeroed) at exactly the dictionary resets the format prescribes (C02.R1). Declined: that guarded cells hold the right bytes (value-level).",
     "note": "Trusts rustc's MIR and privacy checking.",
 }
 CLAIMED["C10"] = {
     "engine": "E-CFG/E-TERM",
     "technique": "static analysis: provenance of the limit argument, who-may-grow enumeration with dominance of the limit test, equality of tested and grown length, who-reads enumeration",
     "design_ref": "DESIGN.md section 4 / C10",
-    "text": "Decides statically: at both constructions of the circular window (one-shot and streaming) the limit is Options.memlimit.unwrap_or(usize::MAX) with no cast, clamp or arithmetic; every call that can grow the window buffer sits on the true edge of new_len <= memlimit whose other edge is Err, and the grown length is exactly the tested index + 1; the limit is read by that guard only and only when the buffer must grow (so a sufficient limit leaves the control flow unchanged). Declined: heap measurements.",
+    "text": "Decides statically: at both constructions of the circular window (one-shot and streaming) the limit is Options.memlimit.unwrap_or(usize::MAX) with no cast, clamp or arithmetic; every call that can grow the window buffer sits on the true edge of new_len <= memlimit whose other edge is Err, and the grown length is exactly the tested index + 1; the limit is read by that guard only and only when the buffer must grow (so a sufficient limit leaves the control flow unchanged); Options.memlimit is read only by functions that construct a window. Declined: heap measurements.",
     "note": "Trusts rustc's MIR.",
 }
 CLAIMED["C17"] = {
@@ -95,21 +95,21 @@ CLAIMED["C01"] = {
     "engine": "E-CFG/E-TERM",
     "technique": "static analysis: header-field map, symbol-automaton constants, context-index terms, who-writes enumeration of the circular window, table shapes (MIR facts, provenance terms)",
     "design_ref": "DESIGN.md section 4 / C01",
-    "text": PARTIAL + "the properties byte is split as lc = b % 9, lp = b / 9 % 5, pb = b / 45 with the only rejection b >= 225 and the dictionary size in effect is max(header field, 4096) (gated evaluation on 10 values); the state automaton uses the format's constants (literal <7 / <10 thresholds with decrements 3 / 6, match 7/10, rep 8/11, short rep 9/11), the rep rotation and the +2 / end-marker terms; literal and distance context indices are the format's expressions; cursor/len/buf of the circular window are written only by append_literal/set (wrap at dict_size), the buffer grows to a length in [index+1, dict_size], finish slices [0, cursor), last_or reads the default iff nothing was produced and otherwise cell (dict_size + cursor - 1) % dict_size (evaluated over cursor x produced x dict_size); probability tables have the format's shapes and 0x400 initialiser; every range-decoder step term (bound, bit test, both probability updates for all 2047 probabilities, normalisation, direct bits, bit-tree recurrences and indices, length-coder offsets, initial state) evaluates to the reference formula. Declined (not static): that the range-coder arithmetic yields the encoder's bits, i.e. byte-exact output - this needs value-level reasoning over 2^32-range arithmetic on every path.",
+    "text": PARTIAL + "the properties byte is split as lc = b % 9, lp = b / 9 % 5, pb = b / 45 with the only rejection b >= 225 and the dictionary size in effect is max(header field, 4096) (gated evaluation on 10 values); the 12-state automaton (each store to `state` evaluated as a function of the old state, per symbol kind read off the dominating decision bits), the length coder per kind, the repeat-distance rotations (replayed in execution order), the +2 / end-marker terms; the nine steps of literal decoding and the decoded distance for all 64 slots (evaluation with symbolic sub-decodings); every DecoderState field is written only by the symbol-decoder family, the constructor and reset_state; the window's distance guards reject exactly dist > bound; every window is constructed with params.dict_size unmodified; cursor/len/buf of the circular window are written only by append_literal/set (wrap at dict_size), the buffer grows to a length in [index+1, dict_size], finish slices [0, cursor), last_or reads the default iff nothing was produced and otherwise cell (dict_size + cursor - 1) % dict_size (evaluated over cursor x produced x dict_size); probability tables have the format's shapes and 0x400 initialiser; every range-decoder step term (bound, bit test, both probability updates for all 2047 probabilities, normalisation, direct bits, bit-tree recurrences and indices, length-coder offsets, initial state) evaluates to the reference formula. Declined (not static): that the range-coder arithmetic yields the encoder's bits, i.e. byte-exact output - this needs value-level reasoning over 2^32-range arithmetic on every path.",
     "note": "Trusts rustc's MIR; the constants in rules/C01.py transcribe the LZMA specification.",
 }
 CLAIMED["C02"] = {
     "engine": "E-CFG/E-TERM",
     "technique": "static analysis: reset-class table read off the SwitchInt on (status >> 5) & 3, size-field provenance terms, control dependence of resets on the flags, order of the produced-length read vs the dictionary reset, sibling agreement reset_state/constructor (MIR facts)",
     "design_ref": "DESIGN.md section 4 / C02",
-    "text": PARTIAL + "for all 128 control bytes 0x80..0xFF the dictionary reset / state reset / read of new properties happen exactly for >= 0xE0 / >= 0xA0 / >= 0xC0 (gated evaluation of the decisions found by what they guard - independent of how the table is spelled) and status 1/2 map to uncompressed chunks with/without dictionary reset; the chunk parser (with its classification helpers) builds an error only for control byte < 0x80, properties >= 225 or lc + lp > 4; unpacked/packed/uncompressed sizes are the format's big-endian terms; the window is reset iff reset_dict, the decoder state iff reset_state with new-or-stored properties, and nothing else in the chunk parser modifies the state; the output target reads the produced length after the dictionary reset; a state reset re-initialises every field of the decoder state; uncompressed bytes extend the same history and advance the produced length by the slice length. Declined: the payload of compressed chunks (C01's declined part).",
+    "text": PARTIAL + "for all 128 control bytes 0x80..0xFF the dictionary reset / state reset / read of new properties happen exactly for >= 0xE0 / >= 0xA0 / >= 0xC0 (gated evaluation of the decisions found by what they guard - independent of how the table is spelled) and status 1/2 map to uncompressed chunks with/without dictionary reset; the chunk parser (with its classification helpers) builds an error only for control byte < 0x80, properties >= 225 or lc + lp > 4; the output target and the packed-size limit evaluate to the format's terms on grids that include the 0xFFFF carry cases; the accumulating window's accessors read buf[len-1], buf[len-dist] and copy from offset len-dist upwards; unpacked/packed/uncompressed sizes are the format's big-endian terms; the window is reset iff reset_dict, the decoder state iff reset_state with new-or-stored properties, and nothing else in the chunk parser modifies the state; the output target reads the produced length after the dictionary reset; a state reset re-initialises every field of the decoder state; uncompressed bytes extend the same history and advance the produced length by the slice length. Declined: the payload of compressed chunks (C01's declined part).",
     "note": "Trusts rustc's MIR; the table in rules/C02.py transcribes the LZMA2 format.",
 }
 CLAIMED["C03"] = {
     "engine": "E-CFG/E-TERM",
     "technique": "static analysis: extraction of the container-arithmetic terms from MIR and their exhaustive/residue-covering evaluation under the compiled integer widths against the format's formulas; control dependence; must-pass-through (MIR facts)",
     "design_ref": "DESIGN.md section 4 / C03",
-    "text": PARTIAL + "block and index padding is (-count) mod 4 (term evaluated on all residues and near 2^32); multi-byte integers use (byte & 0x7F) << 7i, continuation bit 0x80 (all 256 byte values), at most 9 bytes; the block header spans 4b - 1 bytes for all 255 size bytes with no overflow in the compiled widths; the byte counter feeding a block's index record is created per block and the record is (count after the check field - padding, decoded length); the check field is 0/4/8 bytes little-endian compared with the checksum of the block's bytes; the compressed-size field of the header is present iff flag bit 0x40 and the uncompressed-size field iff 0x80 (gated evaluation of the two Option fields for every flag byte), compressed first, and the filter count is (flags & 3) + 1 for all 256 flag bytes; the block loop dispatches 0 -> index (leave) / other -> block (continue) and every Ok path of read_block writes the block to the sink once; the container parser lets no peeked-buffer size decide anything (C13.R1 on the container code). Declined: payload decoding (C02/C01), CRC arithmetic (crc crate).",
+    "text": PARTIAL + "block and index padding is (-count) mod 4 (term evaluated on all residues and near 2^32); multi-byte integers use (byte & 0x7F) << 7i, continuation bit 0x80 (all 256 byte values), at most 9 bytes; the block header spans 4b - 1 bytes for all 255 size bytes with no overflow in the compiled widths; the byte counter feeding a block's index record is created per block and the record is (count after the check field - padding, decoded length); the check field is 0/4/8 bytes little-endian compared with the checksum of the block's bytes; the compressed-size field of the header is present iff flag bit 0x40 and the uncompressed-size field iff 0x80 (gated evaluation of the two Option fields for every flag byte), compressed first, and the filter count is (flags & 3) + 1 for all 256 flag bytes; the block loop dispatches 0 -> index (leave) / other -> block (continue) and every Ok path of read_block writes the block to the sink once; the container parser lets no peeked-buffer size decide anything (C13.R1 on the container code) and builds an XzError only behind an integrity comparison of the C06 table, a C18 refusal, or one of five listed format tests. Declined: payload decoding (C02/C01), CRC arithmetic (crc crate).",
     "note": "Trusts rustc's MIR; the formulas in rules/C03.py transcribe xz-file-format 1.0.4; evaluates extracted expression terms (not the program).",
 }
 
@@ -117,7 +117,7 @@ CLAIMED["C04"] = {
     "engine": "E-CFG/E-TERM",
     "technique": "static analysis: guards and emitted-byte terms of the writers extracted from MIR (flow-sensitive provenance terms) and evaluated over finite domains against the format; composition with the reader's extracted terms (inverse checks); sibling agreement encoder contexts / header; control dependence; must-pass-through",
     "design_ref": "DESIGN.md section 4 / C04",
-    "text": PARTIAL + "the LZMA2 writer emits the end byte exactly when read() returned 0 (short reads continue), chunks are control 1, big-endian n-1 (fits: buffer <= 65536) and buf[..n], and reads again afterwards; the multi-byte writer partitions on value >= 0x80 with bytes 0x80|(v&0x7F) / v and carries v >> 7 (inverse of C03.R2); the XZ block header written is 4*(size byte+1) bytes with one accepted filter id, one property byte and zero padding; writer paddings are (-count) mod 4 zero bytes; reader_term(writer_term(s)) = s for the backward size and the index record / footer size come unmodified from the counting adapters; the .lzma header's properties byte decodes to the lc/lp/pb the encoder's own context indices use, the size field is all-ones / caller's value / absent per option, the end marker is written iff the size is declared unknown with the format's 1+1+4+6+30 bits and in the position state of the number of bytes encoded (gated evaluation for 10 lengths), every Ok finish flushes; range-encoder constants (11-bit probabilities, shift 5 for all 2047 probabilities, top 2^24, 5-byte flush, initial state, carry constants) are the decoder's. Declined (not static): that the range-coded payload round-trips for every input (carry propagation, 2^32-range numerics), interoperability of the payload.",
+    "text": PARTIAL + "the LZMA2 writer emits the end byte exactly when read() returned 0 (short reads continue), chunks are control 1, big-endian n-1 (fits: buffer <= 65536) and buf[..n], and reads again afterwards; the multi-byte writer partitions on value >= 0x80 with bytes 0x80|(v&0x7F) / v and carries v >> 7 (inverse of C03.R2); the XZ block header written is 4*(size byte+1) bytes with one accepted filter id, one property byte and zero padding; writer paddings are (-count) mod 4 zero bytes; reader_term(writer_term(s)) = s for the backward size and the index record / footer size come unmodified from the counting adapters; the .lzma header's properties byte decodes to the lc/lp/pb the encoder's own context indices use, the size field is all-ones / caller's value / absent per option, the end marker is written iff the size is declared unknown with the format's 1+1+4+6+30 bits and in the position state of the number of bytes encoded (gated evaluation for 10 lengths), every Ok finish flushes; encode_bit's stores to low/range and encode_literal's MSB-first bit and tree recurrence evaluate to the reference; range-encoder constants (11-bit probabilities, shift 5 for all 2047 probabilities, top 2^24, 5-byte flush, initial state, carry constants) are the decoder's. Declined (not static): that the range-coded payload round-trips for every input (carry propagation, 2^32-range numerics), interoperability of the payload.",
     "note": "Trusts rustc's MIR; constants in rules/C04.py transcribe the formats; evaluates extracted expression terms (not the program).",
 }
 
@@ -125,7 +125,7 @@ CLAIMED["C05"] = {
     "engine": "E-CFG/E-TERM",
     "technique": "static effect analysis of the update-flag family (caller-visible stores and mutable loans control dependent on the flag or forwarding it); provenance terms of staged slices and fill-position updates; finite evaluation of the refill guards; path checks of the dry-run/commit protocol; ADT capacity constants (MIR facts)",
     "design_ref": "DESIGN.md section 4 / C05",
-    "text": PARTIAL + "a dry run (update = false) stores nothing through caller-visible references and lends none mutably except to its temporary range decoder, in all functions of the symbol decoder reached from process_next_inner, and try_process_next passes false with a decoder over the look-ahead slice; both look-ahead tests use the carry-over capacity 20 and the header staging holds >= 18 bytes; every slice of a staging array handed to a reader ends at its fill position and fill positions move only by fill / first fill at 0 / compaction after copying [consumed, end) to the front / drain after the decoder consumed the bytes; the carry-over buffer is refilled at every fill level below capacity; with < 20 bytes in Partial mode a symbol is committed only after its dry run succeeded and a failed dry run commits nothing and leaves the loop; the range decoder is rebuilt from and saved back to (range, code), the carry-over decoder's state is copied back, staged bytes are decoded before new input and write returns its cursor position; every read of LzmaParams::read_header (through local helpers) fails with Error::HeaderTooShort, which Stream::read_header turns into 'stay in the Header state'. Declined (not static): that 20 bytes always suffice and value-level equality with the one-shot decoder over all chunkings (symbol semantics, range-coder numerics).",
+    "text": PARTIAL + "a dry run (update = false) stores nothing through caller-visible references and lends none mutably except to its temporary range decoder, in all functions of the symbol decoder reached from process_next_inner, and try_process_next passes false with a decoder over the look-ahead slice; both look-ahead tests use the carry-over capacity 20 and the header staging holds >= 18 bytes; every slice of a staging array handed to a reader ends at its fill position and fill positions move only by fill / first fill at 0 / compaction after copying [consumed, end) to the front / drain after the decoder consumed the bytes; the carry-over buffer is refilled at every fill level below capacity; with < 20 bytes in Partial mode a symbol is committed only after its dry run succeeded and a failed dry run commits nothing and leaves the loop; the range decoder is rebuilt from and saved back to (range, code), the carry-over decoder's state is copied back, staged bytes are decoded before new input and write returns its cursor position; every read of LzmaParams::read_header (through local helpers) fails with Error::HeaderTooShort, which Stream::read_header turns into 'stay in the Header state' - and it answers so for no other cause; staging fills reach the end of the array; in Partial mode the decoder stops early only after a failed dry run; every DecoderState field has its writers table. Declined (not static): that 20 bytes always suffice and value-level equality with the one-shot decoder over all chunkings (symbol semantics, range-coder numerics).",
     "note": "Trusts rustc's MIR; T = 20 transcribes the worst-case symbol (22 coded + 26 direct bits).",
 }
 CLAIMED["C15"] = {
